@@ -26,7 +26,10 @@
 //! 4-byte subpieces; register arithmetic incl. subpiece / zero- and sign-extension / shifts /
 //! multiplication / division by constants; pointers that are one of two small absolute constants
 //! depending on a condition (possibly NULL) and are then dereferenced; registers holding one of two
-//! constants (incl. wider than 4 bytes) that are then tested directly or through their low bytes; stack spills and reloads at constant offsets across
+//! constants (incl. wider than 4 bytes) that are then tested directly or through their low bytes; compound
+//! conditions `a && b`, `a || b`, `!(..)` in both operand orders where one operand is decided by constants of
+//! the block (known true / known false, also through a flag) and the other tests an unknown or
+//! interval-valued register; stack spills and reloads at constant offsets across
 //! branches, partial (1/2/4-byte) and overlapping / misaligned stores and loads, prologue/epilogue
 //! stack-pointer adjustments, early returns.
 #![allow(dead_code)]
@@ -396,6 +399,8 @@ impl<'a> Gen<'a> {
             let x = self.rng.below(10);
             if room && self.rng.chance(1, 12) {
                 self.maybe_null_pointer(&mut out);
+            } else if room && depth < self.k.max_depth && self.rng.chance(1, 5) {
+                self.compound_known_test(&mut out, depth);
             } else if room && depth < self.k.max_depth && self.rng.chance(1, 8) {
                 self.const_merge_test(&mut out, depth);
             } else if depth < self.k.max_depth && room && x < 3 {
@@ -428,6 +433,76 @@ impl<'a> Gen<'a> {
             d.push(Def::Store { address: plus(v(&p), k), value: v(&s) });
         }
         out.push(Stmt::Defs(d));
+    }
+    /// A comparison of register `r`, which holds the constant `k` at this point, that is decided by
+    /// constants: (expression, its truth value)
+    fn decided_cmp(&mut self, r: &str, k: i64) -> (Expression, bool) {
+        use BinOpType::*;
+        let sm = k != i64::MAX && k != i64::MIN;
+        match self.rng.below(if sm { 8 } else { 4 }) {
+            0 => (bin(IntEqual, v(r), c(k, 8)), true),
+            1 => (bin(IntNotEqual, v(r), c(k, 8)), false),
+            2 => (bin(IntEqual, c(k, 8), v(r)), true),
+            3 => (bin(IntSLessEqual, v(r), c(k, 8)), true),
+            4 => (bin(IntEqual, v(r), c(k + 1, 8)), false),
+            5 => (bin(IntNotEqual, v(r), c(k - 1, 8)), true),
+            6 => (bin(IntSLess, v(r), c(k + 1, 8)), true),
+            _ => (bin(IntSLess, c(k, 8), v(r)), false),
+        }
+    }
+    /// `r = k; [f = decided comparison of r;] if ((decided) &&/|| (test of an unknown register)) ...`
+    /// in both operand orders, plain or under BoolNegate: one operand of the compound condition is
+    /// known true / known false from constants of the block, the other depends on a register the
+    /// analysis knows nothing or only an interval about.  Both edges are executed by some initial state
+    /// (the initial register files are placed at the tested constants, see `gen_inits`).
+    fn compound_known_test(&mut self, out: &mut Vec<Stmt>, depth: usize) {
+        use BinOpType::*;
+        self.blocks += 3;
+        let r = self.dst();
+        let k = if self.rng.chance(2, 3) { small(self.rng) } else { konst(self.rng) };
+        let mut pre = Vec::new();
+        // the unknown operand: a register that is not `r`; now and then interval-valued (one of two constants)
+        let mut u = self.src();
+        for _ in 0..8 {
+            if u != r {
+                break;
+            }
+            u = self.src();
+        }
+        if u == r {
+            u = if r == "RDI" { "RSI".to_string() } else { "RDI".to_string() };
+        }
+        let mut uc = konst(self.rng);
+        if self.rng.chance(1, 4) && !self.reserved.contains(&u) {
+            let (c1, c2) = (small(self.rng), small(self.rng) + 1 + self.rng.below(20) as i64);
+            let cond = self.cond();
+            self.blocks += 3;
+            out.push(Stmt::If { cond, then: vec![Stmt::Defs(vec![assign(&u, c(c1, 8))])], els: vec![Stmt::Defs(vec![assign(&u, c(c2, 8))])] });
+            uc = if self.rng.chance(1, 2) { c1 } else { c2 };
+        }
+        pre.push(assign(&r, c(k, 8)));
+        let (mut known, _truth) = self.decided_cmp(&r, k);
+        if self.rng.chance(1, 3) {
+            // through a flag that is assigned in the same block
+            let f = *self.rng.pick(&FLAGS[..]);
+            pre.push(assign(f, known));
+            known = v(f);
+        } else if self.rng.chance(1, 8) {
+            known = c(self.rng.below(2) as i64, 1);
+        }
+        let uop = *self.rng.pick(&[IntEqual, IntNotEqual, IntEqual, IntLess, IntSLess, IntSLessEqual, IntLessEqual]);
+        let unknown = if self.rng.chance(1, 5) { bin(uop, c(uc, 8), v(&u)) } else { bin(uop, v(&u), c(uc, 8)) };
+        let op = if self.rng.chance(1, 2) { BoolAnd } else { BoolOr };
+        let mut e = if self.rng.chance(1, 2) { bin(op, known, unknown) } else { bin(op, unknown, known) };
+        if self.rng.chance(1, 3) {
+            e = un(UnOpType::BoolNegate, e);
+        }
+        out.push(Stmt::Defs(pre));
+        let saved = self.reserved.clone();
+        let then = self.seq(depth + 1);
+        let els = if self.rng.chance(1, 2) { self.seq(depth + 1) } else { vec![] };
+        self.reserved = saved;
+        out.push(Stmt::If { cond: Cond { pre: vec![], expr: e }, then, els });
     }
     /// `a = cond ? c1 : c2; [a = a op k;] if (test on a) ...`: the tested register holds an ABSOLUTE
     /// non-singleton value (small, boundary and wider-than-4-byte constants), so the refinement of
@@ -806,6 +881,28 @@ pub fn directed_programs() -> Vec<(&'static str, Term<Program>)> {
             (vec![assign("RBX", c(0xffff_ffff, 8))], Term_::Goto(1)),
             (vec![], Term_::CGoto(bin(IntEqual, cast(CastOpType::IntSExt, 8, subp(0, 4, v("RBX"))), c(-1, 8)), 2, 3)),
             ret(), ret()])),
+        // compound conditions with one operand decided by constants of the block (both operand orders, both
+        // edges executed: the initial register files are placed at the tested constants)
+        ("and-known-true-rhs", build(vec![
+            (vec![Def::Load { var: reg("RAX"), address: plus(v(SP), -16) }, assign("RBX", c(3, 8))],
+             Term_::CGoto(bin(BoolAnd, bin(IntEqual, v("RAX"), c(0, 8)), bin(IntEqual, v("RBX"), c(3, 8))), 1, 2)),
+            ret(), ret()])),
+        ("and-known-true-lhs", build(vec![
+            (vec![assign("RBX", c(3, 8)), assign("ZF", bin(IntEqual, v("RBX"), c(3, 8)))],
+             Term_::CGoto(bin(BoolAnd, v("ZF"), bin(IntSLess, v("RSI"), c(10, 8))), 1, 2)),
+            ret(), ret()])),
+        ("or-known-false-lhs", build(vec![
+            (vec![assign("RCX", c(7, 8))],
+             Term_::CGoto(bin(BoolOr, bin(IntEqual, v("RCX"), c(8, 8)), bin(IntEqual, v("RDX"), c(100, 8))), 1, 2)),
+            ret(), ret()])),
+        ("or-known-false-rhs", build(vec![
+            (vec![assign("RCX", c(7, 8))],
+             Term_::CGoto(bin(BoolOr, bin(IntLess, v("R8"), c(16, 8)), bin(IntNotEqual, v("RCX"), c(7, 8))), 1, 2)),
+            ret(), ret()])),
+        ("not-and-known-true-rhs", build(vec![
+            (vec![assign("RBX", c(-1, 8))],
+             Term_::CGoto(un(UnOpType::BoolNegate, bin(BoolAnd, bin(IntNotEqual, v("R9"), c(5, 8)), bin(IntSLess, v("RBX"), c(0, 8)))), 1, 2)),
+            ret(), ret()])),
         // pointer that is NULL or a valid absolute address, dereferenced after the join
         ("maybe-null", build(vec![
             (vec![], Term_::CGoto(bin(IntSLess, v("RSI"), c(0, 8)), 1, 2)),
@@ -842,6 +939,46 @@ fn collect_consts(e: &Expression, out: &mut Vec<i64>) {
         _ => (),
     }
 }
+fn collect_tests(e: &Expression, out: &mut Vec<(String, i64)>) {
+    if let Expression::BinOp { op, lhs, rhs } = e {
+        use BinOpType::*;
+        if matches!(op, IntEqual | IntNotEqual | IntLess | IntLessEqual | IntSLess | IntSLessEqual) {
+            match (&**lhs, &**rhs) {
+                (Expression::Var(x), Expression::Const(k)) | (Expression::Const(k), Expression::Var(x)) => {
+                    if let Ok(k) = k.try_to_i64() {
+                        if u64::from(x.size) == 8 {
+                            out.push((x.name.clone(), k))
+                        }
+                    }
+                }
+                _ => (),
+            }
+        }
+        collect_tests(lhs, out);
+        collect_tests(rhs, out);
+    } else if let Expression::UnOp { arg, .. } | Expression::Cast { arg, .. } | Expression::Subpiece { arg, .. } = e {
+        collect_tests(arg, out)
+    }
+}
+/// all (register, constant) pairs that a branch condition or a flag assignment compares directly
+pub fn tests_of(sub: &Term<Sub>) -> Vec<(String, i64)> {
+    let mut out = Vec::new();
+    for b in &sub.term.blocks {
+        for d in &b.term.defs {
+            if let Def::Assign { value, .. } = &d.term {
+                collect_tests(value, &mut out)
+            }
+        }
+        for j in &b.term.jmps {
+            if let Jmp::CBranch { condition, .. } = &j.term {
+                collect_tests(condition, &mut out)
+            }
+        }
+    }
+    out.sort();
+    out.dedup();
+    out
+}
 /// all constants of the function (sign-extended to i64)
 pub fn constants_of(sub: &Term<Sub>) -> Vec<i64> {
     let mut out = Vec::new();
@@ -868,9 +1005,9 @@ pub fn constants_of(sub: &Term<Sub>) -> Vec<i64> {
 }
 
 /// `n` initial register files (register name -> value) for a function: random, boundary and values at
-/// the function's constants +-1 and at the edges of the NULL window; several registers share a value now and then; RSP is a large aligned
+/// the function's constants +-1 (in particular at the constants a register is compared with) and at the edges of the NULL window; several registers share a value now and then; RSP is a large aligned
 /// address far away from every small absolute address; flags hold 0/1.
-pub fn gen_inits(rng: &mut Rng, consts: &[i64], n: usize, register_set: &[Variable]) -> Vec<Vec<(String, u64, u64)>> {
+pub fn gen_inits(rng: &mut Rng, consts: &[i64], tests: &[(String, i64)], n: usize, register_set: &[Variable]) -> Vec<Vec<(String, u64, u64)>> {
     let mut out = Vec::new();
     for i in 0..n {
         let mut regs: Vec<(String, u64, u64)> = Vec::new();
@@ -878,6 +1015,15 @@ pub fn gen_inits(rng: &mut Rng, consts: &[i64], n: usize, register_set: &[Variab
         let mut last: u64 = 0;
         for r in register_set.iter().filter(|r| r.name != SP && u64::from(r.size) == 8) {
             let r = r.name.as_str();
+            // a register that is compared with constants sits at one of them (or next to it) in every
+            // second file, so that both edges of the test are executed
+            let mine: Vec<i64> = tests.iter().filter(|(x, _)| x == r).map(|(_, k)| *k).collect();
+            if style != 0 && !mine.is_empty() && rng.chance(1, 2) {
+                let x = (*rng.pick(&mine)).wrapping_add(*rng.pick(&[0i64, 0, 1, -1])) as u64;
+                last = x;
+                regs.push((r.to_string(), x, 8));
+                continue;
+            }
             let x: u64 = match (style, rng.below(10)) {
                 (0, _) => rng.next(),                                        // first file: fully random
                 (_, 0) if !regs.is_empty() => last,                          // equal to the previous register
